@@ -6,6 +6,7 @@ CONSTANTS
   PatchKinds = {"plain2", "ref", "bytes"}
   FnLayouts = {"none", "one"}
   EndSyms = {FALSE}
+  NoSyms = {FALSE}
   AnnModes = {"none", "blk", "bi"}
   WithProxyDel = FALSE
   CfiLayouts = {"none"}
